@@ -1,5 +1,7 @@
-(* Crash/FailInst_proofs.v — the two plain C15 statements about the commit-log writer are FALSE for the
-   code as it is (block size and BufWriter capacity 32768, CRC-32): concrete witnesses, evaluated by
+(* Crash/FailInst_proofs.v — REGRESSION RECORD: the two plain C15 statements about the commit-log writer were
+   FALSE for the writer as it was before the repair of C15-N1/N2/N10 (`frun`, Crash/Fail.v); the same
+   inputs on the repaired Wal (`xrun`) are at the end of this file.  Original header: the statements are FALSE for the
+   code as it was (block size and BufWriter capacity 32768, CRC-32): concrete witnesses, evaluated by
    vm_compute on precomputed definitions.  Both witnesses use a single transient EIO, the fault
    `VERIF_SHIM_FAIL=2:eio:wal/` of the engine; tools/vlib/c15.py replays them on the real writer. *)
 From Coq Require Import List NArith Arith Bool.
@@ -83,6 +85,37 @@ Qed.
 
 Lemma w2_classes : known_mid_emit_failure w2_results = true.
 Proof. vm_compute. reflexivity. Qed.
+
+(* ================================================================== the same inputs on the repaired Wal *)
+Definition x1_cmds : list xcmd := [XC (CAppend [1%N]); XC (CAppend [2%N]); XC (CAppend [3%N]); XClose].
+Definition x1_results : list xres := Eval vm_compute in snd (fi_xrun w_wenv w_senv walx0 x1_cmds).
+Lemma x1_regression :
+  snd (fi_xrun w_wenv w_senv walx0 x1_cmds) = [XOk; XFail FFailFlush; XRefused; XOk] /\
+  xdelivered WB wal_crc nod (fst (fi_xrun w_wenv w_senv walx0 x1_cmds)) = [[1%N]] /\
+  xacked x1_cmds x1_results = [[1%N]] /\ cur_buf (x_wal (fst (fi_xrun w_wenv w_senv walx0 x1_cmds))) = [].
+Proof. repeat split; vm_compute; reflexivity. Qed.
+
+Definition x2_cmds : list xcmd := [XC (CAppend [1%N]); XC (CAppend (repeat 7%N 40000)); XC (CAppend [3%N]); XC CSync; XClose].
+Definition x2_results : list xres := Eval vm_compute in snd (fi_xrun w_wenv w_senv walx0 x2_cmds).
+Lemma x2_results_eq : x2_results = [XOk; XFail FFailEmit; XRefused; XRefused; XOk].
+Proof. reflexivity. Qed.
+Lemma x2_delivered : xdelivered WB wal_crc nod (fst (fi_xrun w_wenv w_senv walx0 x2_cmds)) = [[1%N]].
+Proof. vm_compute. reflexivity. Qed.
+Lemma x2_acked : xacked x2_cmds x2_results = [[1%N]].
+Proof. vm_compute. reflexivity. Qed.
+
+(* what remains, at the level of a sync COMMIT (append + sync): the fsync fails when the record is already in the
+   file: the commit fails, the record is delivered (store level: C15-N3).  Per append nothing is wrong:
+   the append WAS acknowledged. *)
+Definition x3_cmds : list xcmd := [XC (CAppend [1%N]); XC CSync; XC (CAppend [2%N])].
+Definition x3_wenv := plan_wenv 1 KFsync false.
+Definition x3_senv := plan_senv 1 KFsync false.
+Definition x3_results : list xres := Eval vm_compute in snd (fi_xrun x3_wenv x3_senv walx0 x3_cmds).
+Lemma x3_fsync_failed :
+  x3_results = [XOk; XFail FFailFsync; XRefused] /\ xknown_fsync_failed x3_results = true /\
+  xdelivered WB wal_crc nod (fst (fi_xrun x3_wenv x3_senv walx0 x3_cmds)) = [[1%N]] /\
+  xacked x3_cmds x3_results = [[1%N]].
+Proof. repeat split; vm_compute; reflexivity. Qed.
 
 (* ---- the instance meets the hypotheses of the positive theorems ---- *)
 Lemma fail_params_side_conditions : fail_params_ok = true.
